@@ -17,9 +17,8 @@ open RNacos.IndexFile RNacos.Varint RNacos.FileReader
 /-- the modelled codec returns the record it was given -/
 def RoundTrips (r : RaftIdx) : Prop := decIdx (encIdx r) = some r
 
-/-- something has been saved: the record does not encode to the empty message (a term ≥ 1, a log range,
-a member, …); the all-default record is what a fresh file holds -/
-def NonEmpty (r : RaftIdx) : Prop := 0 < (encIdx r).length ∧ (encIdx r).length < 2 ^ 64
+/-- the encoded record's length is a u64 (the length prefix can hold it) -/
+def Fits (r : RaftIdx) : Prop := (encIdx r).length < 2 ^ 64
 
 /-! ### byte-list file operations -/
 
@@ -61,41 +60,60 @@ theorem unbe8_be8 (n : Nat) (h : n < 2 ^ 64) (rest : List Nat) : unbe8 (be8 n ++
 
 /-! ### reading back what `write_index` wrote -/
 
-/-- the parse of `init` on a file whose bytes from offset 8 are a frame of `encIdx r` (plus any stale
-bytes of a longer, older record) -/
+/-- the record part: a frame of `encIdx r` followed by any stale bytes of a longer, older record parses to `r`
+– also when `r` is the all-default record, whose frame is the single byte 0 -/
+theorem parseRec_frame (stale : List Nat) (r : RaftIdx) (hrt : RoundTrips r) (hf : Fits r) :
+    parseRec (frame (encIdx r) ++ stale) = some r := by
+  unfold parseRec
+  by_cases he : (encIdx r).length = 0
+  · -- the empty record
+    have hnil : encIdx r = [] := List.eq_nil_of_length_eq_zero he
+    have hr : r = {} := by
+      have h1 : decIdx (encIdx r) = some r := hrt
+      rw [hnil] at h1
+      have h2 : decIdx [] = some ({} : RaftIdx) := by decide
+      rw [h2] at h1; exact (Option.some.inj h1).symm
+    have hfr : frame (encIdx r) = [0] := by rw [hnil]; decide
+    rw [hfr]; simp [hr]
+  · have hpos : 0 < (encIdx r).length := by omega
+    obtain ⟨a, t, hat, ha0⟩ := RNacos.FileReader.frame_head_ne_zero (encIdx r) hpos stale
+    have hframe : RNacos.Spec.Stream.frame (encIdx r) = frame (encIdx r) := rfl
+    rw [hframe] at hat
+    have hhead : ¬ ((frame (encIdx r) ++ stale).head? = some 0) := by
+      rw [hat]; simp; exact ha0
+    simp only [hhead, if_false]
+    have hrl := RNacos.FileReader.readLen_frame [] (encIdx r) stale ⟨hpos, hf⟩
+    rw [hframe] at hrl
+    simp only [List.nil_append, List.length_nil] at hrl
+    rw [hrl]
+    simp only
+    have hbuf : (frame (encIdx r) ++ stale).take (frame (encIdx r)).length = frame (encIdx r) := by simp
+    rw [hbuf]
+    simp only [Nat.lt_irrefl, if_false]
+    have hv128 : (encIdx r).length < 128 ^ (9 + 1) := by have := pow64_lt; unfold Fits at hf; omega
+    have hvl : vlen (frame (encIdx r)) = some (vwrite (encIdx r).length).length := by
+      unfold frame; exact vlen_vwriteF 9 _ _ hv128
+    have hrd : vreadGo 10 (frame (encIdx r)) = .ok (encIdx r).length := by
+      unfold frame; exact vreadGo_vwrite _ _ hf
+    rw [hvl, hrd]
+    simp only
+    have hbody : ((frame (encIdx r)).drop (vwrite (encIdx r).length).length).take (encIdx r).length = encIdx r := by
+      unfold frame; simp
+    rw [hbody]; exact hrt
+
+/-- the parse of `init` on a file whose bytes from offset 8 are a frame of `encIdx r` (plus stale bytes) -/
 theorem parse_frame (pre stale : List Nat) (r : RaftIdx) (hpre : pre.length = 8) (hrt : RoundTrips r)
-    (hne : NonEmpty r) :
+    (hf : Fits r) :
     initL freshLimit (pre ++ (frame (encIdx r) ++ stale)) =
       some ⟨pre ++ (frame (encIdx r) ++ stale), r, unbe8 (pre ++ (frame (encIdx r) ++ stale))⟩ := by
-  have hfl : (frame (encIdx r)).length = (vwrite (encIdx r).length).length + (encIdx r).length := by
-    unfold frame; simp
   have hvpos := vwrite_length_pos (encIdx r).length
   have hbig : ¬ ((pre ++ (frame (encIdx r) ++ stale)).length ≤ freshLimit) := by
-    simp only [List.length_append, hpre, freshLimit, hfl]; have := hne.1; omega
+    simp only [List.length_append, hpre, freshLimit, frame]; omega
   unfold initL
   simp only [hbig, if_false]
-  have hrl := RNacos.FileReader.readLen_frame pre (encIdx r) stale hne
-  rw [hpre] at hrl
-  have hframe : RNacos.Spec.Stream.frame (encIdx r) = frame (encIdx r) := rfl
-  rw [hframe] at hrl
-  rw [hrl]
-  simp only
   have hdrop : (pre ++ (frame (encIdx r) ++ stale)).drop 8 = frame (encIdx r) ++ stale := by
     rw [← hpre]; simp
-  have hbuf : ((pre ++ (frame (encIdx r) ++ stale)).drop 8).take (frame (encIdx r)).length = frame (encIdx r) := by
-    rw [hdrop]; simp
-  rw [hbuf]
-  simp only [Nat.lt_irrefl, if_false]
-  have hv128 : (encIdx r).length < 128 ^ (9 + 1) := by have := pow64_lt; have := hne.2; omega
-  have hvl : vlen (frame (encIdx r)) = some (vwrite (encIdx r).length).length := by
-    unfold frame; exact vlen_vwriteF 9 _ _ hv128
-  have hrd : vreadGo 10 (frame (encIdx r)) = .ok (encIdx r).length := by
-    unfold frame; exact vreadGo_vwrite _ _ hne.2
-  rw [hvl, hrd]
-  simp only
-  have hbody : ((frame (encIdx r)).drop (vwrite (encIdx r).length).length).take (encIdx r).length = encIdx r := by
-    unfold frame; simp
-  rw [hbody, hrt]
+  rw [hdrop, parseRec_frame stale r hrt hf]; rfl
 
 /-- the state on disk decodes to the state in memory -/
 def Consistent (f : IndexFile) : Prop := init f.bytes = some f
@@ -103,7 +121,7 @@ def Consistent (f : IndexFile) : Prop := init f.bytes = some f
 /-- **reopen after `write_index`**: whatever was in the file before (shorter, equal or longer record),
 reopening returns exactly the record just written and the last-applied index that was there -/
 theorem reopen_after_writeIndex (f : IndexFile) (r : RaftIdx) (hlen : 8 ≤ f.bytes.length)
-    (hrt : RoundTrips r) (hne : NonEmpty r) (happ : unbe8 f.bytes = f.applied) :
+    (hrt : RoundTrips r) (hf : Fits r) (happ : unbe8 f.bytes = f.applied) :
     Consistent (f.writeIndex r) := by
   unfold Consistent IndexFile.writeIndex init
   simp only
@@ -112,7 +130,7 @@ theorem reopen_after_writeIndex (f : IndexFile) (r : RaftIdx) (hlen : 8 ≤ f.by
   have hsplit : writeAt f.bytes 8 (frame (encIdx r)) = f.bytes.take 8 ++ (frame (encIdx r) ++ junk) := by
     rw [← List.take_append_drop 8 (writeAt f.bytes 8 (frame (encIdx r))), ht, hj]
   have hpre : (f.bytes.take 8).length = 8 := by simp; omega
-  rw [hsplit, parse_frame _ junk r hpre hrt hne]
+  rw [hsplit, parse_frame _ junk r hpre hrt hf]
   congr 2
   unfold unbe8 at happ ⊢
   rw [List.take_append_of_le_length (by omega), List.take_take]
@@ -130,40 +148,20 @@ theorem reopen_after_writeApplied (f : IndexFile) (n : Nat) (hn : n < 2 ^ 64) (h
     have := writeAt_zero_drop f.bytes (be8 n) (by rw [be8_length]; unfold freshLimit at hbig; omega)
     rw [be8_length] at this; exact this
   simp only [hlen, hnb, if_false] at hc ⊢
-  -- everything that is read lies at or after offset 8
-  have hrl : readLen ⟨writeAt f.bytes 0 (be8 n), 8⟩ = readLen ⟨f.bytes, 8⟩ := by
-    unfold readLen; simp only [hd]
-  rw [hrl, hd]
-  cases h1 : readLen ⟨f.bytes, 8⟩ with
-  | none => rw [h1] at hc; cases hc
-  | some flen =>
-    rw [h1] at hc
-    simp only at hc ⊢
-    split at hc
-    · cases hc
-    · rename_i hnl
-      simp only [hnl, if_false]
-      split at hc
-      · rename_i k m hk hm
-        simp only [hk, hm]
-        split at hc
-        · rename_i idx hidx
-          simp only [hidx]
-          simp only [Option.some.injEq] at hc ⊢
-          have hidx' : f.idx = idx := by rw [← hc]
-          rw [← hidx']
-          have hw : writeAt f.bytes 0 (be8 n) = be8 n ++ f.bytes.drop 8 := by
-            rw [← List.take_append_drop 8 (writeAt f.bytes 0 (be8 n)), hd]
-            congr 1
-            unfold writeAt
-            simp [be8_length]
-            rw [List.take_append_of_le_length (by rw [be8_length])]
-            rw [List.take_of_length_le (by rw [be8_length])]
-          congr 1
-          rw [hw]
-          exact unbe8_be8 n hn _
-        · cases hc
-      · cases hc
+  rw [hd]
+  cases hp : parseRec (f.bytes.drop 8) with
+  | none => rw [hp] at hc; cases hc
+  | some idx =>
+    rw [hp] at hc
+    simp only [Option.map_some, Option.some.injEq] at hc ⊢
+    have hidx' : f.idx = idx := by rw [← hc]
+    rw [← hidx']
+    have hw : writeAt f.bytes 0 (be8 n) = be8 n ++ f.bytes.drop 8 := by
+      unfold writeAt
+      simp [be8_length]
+    congr 1
+    rw [hw]
+    exact unbe8_be8 n hn _
 
 /-! ### interference freedom: every mutator replaces its own fields only -/
 
@@ -199,29 +197,18 @@ def nextIdx (f : IndexFile) : Op → RaftIdx
 def StepOK (f : IndexFile) (op : Op) : Prop :=
   match op with
   | .applied n => n < 2 ^ 64
-  | op => RoundTrips (nextIdx f op) ∧ NonEmpty (nextIdx f op)
-
-theorem consistent_length (f : IndexFile) (h : Consistent f) (hne : f.idx ≠ {}) : freshLimit < f.bytes.length := by
-  unfold Consistent init initL at h
-  by_cases hl : f.bytes.length ≤ freshLimit
-  · simp only [hl, if_true, Option.some.injEq] at h
-    exfalso; apply hne; rw [← h]
-  · omega
+  | op => RoundTrips (nextIdx f op) ∧ Fits (nextIdx f op)
 
 theorem consistent_applied (f : IndexFile) (h : Consistent f) (hbig : freshLimit < f.bytes.length) :
     unbe8 f.bytes = f.applied := by
   unfold Consistent init initL at h
   have hnb : ¬ (f.bytes.length ≤ freshLimit) := by omega
   simp only [hnb, if_false] at h
-  split at h
-  · cases h
-  · split at h
-    · cases h
-    · split at h
-      · split at h
-        · simp only [Option.some.injEq] at h; rw [← h]
-        · cases h
-      · cases h
+  cases hp : parseRec (f.bytes.drop 8) with
+  | none => rw [hp] at h; cases h
+  | some idx =>
+    rw [hp] at h
+    simp only [Option.map_some, Option.some.injEq] at h; rw [← h]
 
 /-- **Every acknowledged save is what the next start reads**: a consistent file stays consistent under
 every mutator – hard state, membership, addresses, log and snapshot catalogue, last-applied – in any
@@ -245,31 +232,171 @@ theorem consistent_step (f : IndexFile) (op : Op) (hc : Consistent f) (hbig : fr
 /-- reopening a consistent file is the identity: no regress through restarts, however many -/
 theorem reopen_identity (f : IndexFile) (hc : Consistent f) : init f.bytes = some f := hc
 
-/-- a new (or still empty) file starts from the default state and is consistent once something is saved -/
-theorem fresh_then_save (r : RaftIdx) (hrt : RoundTrips r) (hne : NonEmpty r) :
-    ∃ f0, init [] = some f0 ∧ f0.idx = {} ∧ f0.applied = 0 ∧ Consistent (f0.writeIndex r) := by
-  refine ⟨⟨writeAt [] 0 (be8 0 ++ frame (encIdx {})), {}, 0⟩, by simp [init, initL, freshLimit], rfl, rfl, ?_⟩
-  apply reopen_after_writeIndex _ r _ hrt hne
-  · decide
-  · simp [writeAt_length, be8_length]
+/-- the file a first start creates -/
+def newFile : IndexFile := ⟨writeAt [] 0 (be8 0 ++ frame (encIdx {})), {}, 0⟩
 
-/-! ### the two defects that were repaired (kept as theorems about the old rules) -/
+/-- a first start (no file, or a file cut short inside its first 9 bytes) creates the default state, and that
+file is already consistent: the 9-byte file is read, not re-created, by the next start -/
+theorem fresh_start : init [] = some newFile ∧ Consistent newFile ∧ freshLimit < newFile.bytes.length := by
+  unfold Consistent; decide
+
+/-- the premises hold at every step of a history -/
+def HistOK : IndexFile → List Op → Prop
+  | _, [] => True
+  | f, op :: ops => StepOK f op ∧ HistOK (f.step op) ops
+
+/-- **all histories**: after any interleaving of hard-state, membership, address, catalogue and
+last-applied saves the file on disk decodes to the state in memory -/
+theorem history_consistent (ops : List Op) (f : IndexFile) (hc : Consistent f)
+    (hbig : freshLimit < f.bytes.length) (hok : HistOK f ops) :
+    Consistent (ops.foldl IndexFile.step f) := by
+  induction ops generalizing f with
+  | nil => exact hc
+  | cons op ops ih =>
+    obtain ⟨h1, h2⟩ := consistent_step f op hc hbig hok.1
+    exact ih _ h1 h2 hok.2
+
+/-- the last hard state saved in a history -/
+def lastHard : List Op → Option (Nat × Nat)
+  | [] => none
+  | .hardState t v :: ops => (lastHard ops).or (some (t, v))
+  | _ :: ops => lastHard ops
+
+theorem history_hard_state (ops : List Op) (f : IndexFile) :
+    ((ops.foldl IndexFile.step f).idx.term, (ops.foldl IndexFile.step f).idx.vote) =
+      (lastHard ops).getD (f.idx.term, f.idx.vote) := by
+  induction ops generalizing f with
+  | nil => rfl
+  | cons op ops ih =>
+    rw [List.foldl_cons, ih]
+    cases op with
+    | hardState t v =>
+      simp only [lastHard]
+      cases lastHard ops <;> simp [IndexFile.step, IndexFile.writeIndex]
+    | member m a ad => simp [lastHard, IndexFile.step, IndexFile.writeIndex]
+    | addAddr i a => simp [lastHard, IndexFile.step, IndexFile.writeIndex]
+    | logs l => simp [lastHard, IndexFile.step, IndexFile.writeIndex]
+    | snapshots l => simp [lastHard, IndexFile.step, IndexFile.writeIndex]
+    | applied n => simp [lastHard, IndexFile.step, IndexFile.writeApplied]
+
+/-- **the vote survives every history and restart**: whatever else rewrote the file afterwards, a restart
+reads the term and vote of the last acknowledged `save_hard_state` -/
+theorem restart_reads_last_hard_state (ops : List Op) (f : IndexFile) (hc : Consistent f)
+    (hbig : freshLimit < f.bytes.length) (hok : HistOK f ops) :
+    (init (ops.foldl IndexFile.step f).bytes).map (fun g => (g.idx.term, g.idx.vote)) =
+      some ((lastHard ops).getD (f.idx.term, f.idx.vote)) := by
+  rw [history_consistent ops f hc hbig hok, Option.map_some, history_hard_state]
+
+/-- the last membership saved in a history -/
+def lastMember : List Op → Option (List Nat)
+  | [] => none
+  | .member m _ _ :: ops => (lastMember ops).or (some m)
+  | _ :: ops => lastMember ops
+
+theorem history_member (ops : List Op) (f : IndexFile) :
+    (ops.foldl IndexFile.step f).idx.member = (lastMember ops).getD f.idx.member := by
+  induction ops generalizing f with
+  | nil => rfl
+  | cons op ops ih =>
+    rw [List.foldl_cons, ih]
+    cases op with
+    | member m a ad =>
+      simp only [lastMember]
+      cases lastMember ops <;> simp [IndexFile.step, IndexFile.writeIndex]
+    | hardState t v => simp [lastMember, IndexFile.step, IndexFile.writeIndex]
+    | addAddr i a => simp [lastMember, IndexFile.step, IndexFile.writeIndex]
+    | logs l => simp [lastMember, IndexFile.step, IndexFile.writeIndex]
+    | snapshots l => simp [lastMember, IndexFile.step, IndexFile.writeIndex]
+    | applied n => simp [lastMember, IndexFile.step, IndexFile.writeApplied]
+
+theorem restart_reads_last_membership (ops : List Op) (f : IndexFile) (hc : Consistent f)
+    (hbig : freshLimit < f.bytes.length) (hok : HistOK f ops) :
+    (init (ops.foldl IndexFile.step f).bytes).map (·.idx.member) =
+      some ((lastMember ops).getD f.idx.member) := by
+  rw [history_consistent ops f hc hbig hok, Option.map_some, history_member]
+
+/-- an address once added is read back until the same node's address is replaced or a membership save
+replaces the whole address map -/
+theorem addAddr_lookup (f : IndexFile) (i : Nat) (a : List Nat) :
+    (f.step (.addAddr i a)).idx.addrs.lookup i = some a := by
+  simp only [IndexFile.step, IndexFile.writeIndex, addrInsert]
+  induction f.idx.addrs with
+  | nil => simp [List.lookup]
+  | cons hd tl ih =>
+    simp only [List.filter_cons]
+    by_cases h : hd.1 = i
+    · simp [h, ih]
+    · have : (hd.1 != i) = true := by simp [h]
+      simp only [this, if_true, List.cons_append]
+      have hne : (i == hd.1) = false := by simp; exact fun e => h e.symm
+      cases hd with | mk k v => simp only [List.lookup, hne]; exact ih
+
+theorem addAddr_keeps_others (f : IndexFile) (i j : Nat) (a : List Nat) (h : j ≠ i) :
+    (f.step (.addAddr i a)).idx.addrs.lookup j = f.idx.addrs.lookup j := by
+  simp only [IndexFile.step, IndexFile.writeIndex, addrInsert]
+  induction f.idx.addrs with
+  | nil =>
+    have hji : (j == i) = false := by simp [h]
+    simp [List.lookup, hji]
+  | cons hd tl ih =>
+    cases hd with | mk k v =>
+    simp only [List.filter_cons]
+    by_cases hk : k = i
+    · subst hk
+      have hji : (j == k) = false := by simp [h]
+      simp [List.lookup, hji, ih]
+    · have : (k != i) = true := by simp [hk]
+      simp only [this, if_true, List.cons_append, List.lookup]
+      cases hjk : (j == k) <;> simp [ih]
+
+
+/-- **from the very first start**: after any history of saves on a store that began with no file at all,
+every restart reads the term and vote saved last (nothing saved: the defaults 0/0) -/
+theorem from_new_file_restart_reads_last_hard_state (ops : List Op) (hok : HistOK newFile ops) :
+    (init (ops.foldl IndexFile.step newFile).bytes).map (fun g => (g.idx.term, g.idx.vote)) =
+      some ((lastHard ops).getD (0, 0)) :=
+  restart_reads_last_hard_state ops newFile fresh_start.2.1 fresh_start.2.2 hok
+
+theorem from_new_file_restart_reads_last_membership (ops : List Op) (hok : HistOK newFile ops) :
+    (init (ops.foldl IndexFile.step newFile).bytes).map (·.idx.member) = some ((lastMember ops).getD []) :=
+  restart_reads_last_membership ops newFile fresh_start.2.1 fresh_start.2.2 hok
+
+/-! ### the defects that were repaired (kept as theorems about the old rules) -/
 
 /-- with the old threshold (`len <= 20`) a file that only holds a vote is wiped on restart -/
 theorem old_threshold_forgets_vote :
-    let f0 : IndexFile := ⟨writeAt [] 0 (be8 0 ++ frame (encIdx {})), {}, 0⟩
-    let f1 := f0.step (.hardState 1 1)
+    let f1 := newFile.step (.hardState 1 1)
     (initL 20 f1.bytes).map (·.idx.vote) = some 0 ∧ (initL freshLimit f1.bytes).map (·.idx.vote) = some 1 := by
   decide
 
+/-- with `len <= 9` a last-applied index saved into the file that holds the empty record was reset -/
+theorem threshold_9_forgets_applied :
+    let f1 := newFile.step (.applied 7)
+    (initL 9 f1.bytes).map (·.applied) = some 0 ∧ (initL freshLimit f1.bytes).map (·.applied) = some 7 := by
+  decide
+
+/-- the all-default record after a longer one: the frame is the single byte 0, which `read_len` alone takes
+for "end of records" – `parseRec` without its first branch fails on exactly this file -/
+theorem empty_record_after_longer_one :
+    let f1 := (newFile.step (.addAddr 1 [104])).step (.member [] none (some []))
+    f1.idx = {} ∧ readLen ⟨f1.bytes.drop 8, 0⟩ = none ∧ (init f1.bytes).map (·.idx) = some {} := by
+  decide
+
 /-! ### non-vacuity -/
-example : RoundTrips { term := 3, vote := 2, member := [1, 2, 3], addrs := [(1, [97]), (2, [98, 99])],
-    logs := [⟨1, 0, 1, 5, 0, false, false⟩] } ∧
-    NonEmpty { term := 3, vote := 2, member := [1, 2, 3], addrs := [(1, [97]), (2, [98, 99])],
-      logs := [⟨1, 0, 1, 5, 0, false, false⟩] } := by
-  refine ⟨by decide, by decide, ?_⟩
-  have : (encIdx { term := 3, vote := 2, member := [1, 2, 3], addrs := [(1, [97]), (2, [98, 99])],
-      logs := [⟨1, 0, 1, 5, 0, false, false⟩] }).length = 31 := by decide
-  omega
+def sampleIdx : RaftIdx :=
+  { term := 3, vote := 2, member := [1, 2, 3], addrs := [(1, [97]), (2, [98, 99])],
+    logs := [⟨1, 0, 1, 5, 0, false, false⟩] }
+
+example : RoundTrips sampleIdx ∧ Fits sampleIdx := by
+  refine ⟨by unfold RoundTrips; decide, ?_⟩
+  have : (encIdx sampleIdx).length < 100 := by decide
+  unfold Fits; omega
+
+example : HistOK newFile [.hardState 1 1, .applied 5, .member [1] none none] := by
+  refine ⟨⟨by unfold RoundTrips; decide, ?_⟩, by unfold StepOK; decide, ⟨by unfold RoundTrips; decide, ?_⟩, trivial⟩
+  · have : (encIdx (nextIdx newFile (.hardState 1 1))).length < 100 := by decide
+    unfold Fits; omega
+  · have : (encIdx (nextIdx ((newFile.step (.hardState 1 1)).step (.applied 5)) (.member [1] none none))).length < 100 := by decide
+    unfold Fits; omega
 
 end RNacos.Props.C05
